@@ -39,8 +39,8 @@ RULES = [
     ("R-ordmin", "( bootstrap_attempt + 1 ) . min ( 9 )", "vx_min_u64 ( bootstrap_attempt + 1 , 9 )", "Ord::min is a provided trait method (no assume_specification possible): verified helper returning the smaller argument"),
     ("R-ordmax", "NODE_TIMEOUT . max ( $b )", "vx_duration_max ( NODE_TIMEOUT , $b )", "Ord::max is a provided trait method (Verus accepts no assume_specification for it): stand-in returning one of its arguments"),
     ("R-foriter", "for ( node , dist_to_beat ) in nodes {", "let mut vx_it = nodes ; loop { let vx_nx = vx_it . next ( ) ; if vx_nx . is_none ( ) { break ; } let ( node , dist_to_beat ) = vx_nx . unwrap ( ) ;", "for over a generic iterator -> its definition (loop over next() until None); Verus for-loops support neither generic iterators nor `continue`"),
-    ("R-foriter", "for node_info in self . all_sorted_nodes . iter_mut ( ) . filter ( $c ) {", "let mut vx_it = self . all_sorted_nodes . iter_mut ( ) . filter ( $c ) ; loop { let vx_nx = vx_it . next ( ) ; if vx_nx . is_none ( ) { break ; } let node_info = vx_nx . unwrap ( ) ;", "for over an iterator adapter chain -> its definition (loop over next() until None); Verus for-loops do not support `continue`"),
-    ("R-foriter", "for node in table . lock ( ) . unwrap ( ) . closest_nodes ( target_id ) . filter ( $c ) . take ( $n ) {", "let mut vx_it = table . lock ( ) . unwrap ( ) . closest_nodes ( target_id ) . filter ( $c ) . take ( $n ) ; loop { let vx_nx = vx_it . next ( ) ; if vx_nx . is_none ( ) { break ; } let node = vx_nx . unwrap ( ) ;", "for over an iterator adapter chain -> its definition (loop over next() until None)"),
+    ("R-foriter", "for node_info in self . all_sorted_nodes . iter_mut ( ) $rest {", "let mut vx_it = self . all_sorted_nodes . iter_mut ( ) $rest ; loop { let vx_nx = vx_it . next ( ) ; if vx_nx . is_none ( ) { break ; } let node_info = vx_nx . unwrap ( ) ;", "for over an iterator adapter chain -> its definition (loop over next() until None); Verus for-loops do not support `continue`"),
+    ("R-foriter", "for node in table . lock ( ) . unwrap ( ) . closest_nodes ( target_id ) $rest {", "let mut vx_it = table . lock ( ) . unwrap ( ) . closest_nodes ( target_id ) $rest ; loop { let vx_nx = vx_it . next ( ) ; if vx_nx . is_none ( ) { break ; } let node = vx_nx . unwrap ( ) ;", "for over an iterator adapter chain -> its definition (loop over next() until None)"),
     ("R-forvec", "for node in nodes {", "let mut vx_i : usize = 0 ; while vx_i < nodes . len ( ) { let node = nodes [ vx_i ] ; vx_i += 1 ;", "for over a Vec of Copy items -> indexed while loop with the same element sequence (Verus for-loops do not support `continue`)"),
     ("R-pin", "pin ! ( $e )", "$e", "pin! dropped: under the sequential reading (R-deasync) the future has run to completion where it is created"),
     ("R-pending", "std :: future :: pending :: < ( ) > ( )", "vx_pending ( )", "a future that never resolves -> stand-in that never returns (postcondition false)"),
